@@ -240,6 +240,9 @@ class ExprMixin:
             if attr in loader.classes(name):
                 return ClassRef(attr)
             return FuncRef(f"{name}.{attr}")
+        if name == "string" and attr in ("ascii_lowercase", "ascii_uppercase", "ascii_letters", "digits", "punctuation", "whitespace"):
+            import string as _string
+            return getattr(_string, attr)          # constants of the standard library module `string`
         return FuncRef(f"{name}.{attr}")
 
     def ev_Subscript(self, node, st):
